@@ -143,8 +143,9 @@ func refKey(r blob.Ref) uint64 {
 
 // ---- the world one case runs in -------------------------------------------------------------------------
 
-// MaxTime bounds dates and query times of the protocol (seconds since the epoch).
-const MaxTime = 9999999999
+// MaxTime bounds dates and query times of the protocol (seconds since the epoch; its nanoseconds
+// fit an int64).  A time is written <seconds> or <seconds>.<1-9 digits, the last one not 0>.
+const MaxTime = 9000000000
 
 type claimInfo struct {
 	ref    blob.Ref
@@ -285,15 +286,34 @@ func parseNat(s string, max uint64) (uint64, bool) {
 	return v, err == nil && v <= max
 }
 
+// parseTime reads <seconds>[.<fraction>] in its canonical spelling.
+func parseTime(s string) (time.Time, bool) {
+	secs, frac, hasFrac := strings.Cut(s, ".")
+	v, ok := parseNat(secs, MaxTime)
+	if !ok || v == 0 {
+		return time.Time{}, false
+	}
+	var ns int64
+	if hasFrac {
+		if len(frac) == 0 || len(frac) > 9 || frac[len(frac)-1] == '0' {
+			return time.Time{}, false
+		}
+		for _, c := range frac {
+			if c < '0' || c > '9' {
+				return time.Time{}, false
+			}
+		}
+		n, _ := strconv.ParseInt(frac+strings.Repeat("0", 9-len(frac)), 10, 64)
+		ns = n
+	}
+	return time.Unix(int64(v), ns).UTC(), true
+}
+
 func parseT(s string) (time.Time, bool) {
 	if s == "z" {
 		return time.Time{}, true
 	}
-	v, ok := parseNat(s, MaxTime)
-	if !ok || v == 0 {
-		return time.Time{}, false
-	}
-	return time.Unix(int64(v), 0).UTC(), true
+	return parseTime(s)
 }
 
 func (w *world) filter(s string) (keyID string, refs index.SignerRefSet, ok bool) {
@@ -384,16 +404,16 @@ func (w *world) exec(a []string) string {
 		id, ok1 := parseNat(a[1], 1<<30)
 		attr, ok2 := textArg(a[5])
 		val, ok3 := textArg(a[6])
-		date, ok4 := parseNat(a[7], MaxTime)
+		date, ok4 := parseTime(a[7])
 		rk, ok5 := parseNat(a[8], 1<<48)
-		if !ok1 || !ok2 || !ok3 || !ok4 || !ok5 || date == 0 || (a[2] != "0" && a[2] != "1") || (a[3] != "0" && a[3] != "1") {
+		if !ok1 || !ok2 || !ok3 || !ok4 || !ok5 || (a[2] != "0" && a[2] != "1") || (a[3] != "0" && a[3] != "1") {
 			return "bad-op"
 		}
 		p, s := int(a[2][0]-'0'), int(a[3][0]-'0')
 		if int(id) <= w.maxID || !w.pn[p].Valid() || attr == "" {
 			return "bad-op" // ids grow with arrival: a target always precedes its deleters
 		}
-		ckey := fmt.Sprintf("claim %d %d %s %q %q %d", p, s, a[4], attr, val, date)
+		ckey := fmt.Sprintf("claim %d %d %s %q %q %s", p, s, a[4], attr, val, a[7])
 		if a[4] != "set" && a[4] != "add" && a[4] != "del" || w.content[ckey] {
 			return "bad-op"
 		}
@@ -408,7 +428,7 @@ func (w *world) exec(a []string) string {
 		default:
 			return "bad-op"
 		}
-		b.SetClaimDate(time.Unix(int64(date), 0).UTC())
+		b.SetClaimDate(date)
 		return w.addClaim(int(id), &claimInfo{pn: p, signer: s}, b, rk, ckey)
 
 	case "delete": // delete <id> <c<id>|p<p>> <s> <date> <rk>
@@ -416,9 +436,9 @@ func (w *world) exec(a []string) string {
 			return "bad-op"
 		}
 		id, ok1 := parseNat(a[1], 1<<30)
-		date, ok4 := parseNat(a[4], MaxTime)
+		date, ok4 := parseTime(a[4])
 		rk, ok5 := parseNat(a[5], 1<<48)
-		if !ok1 || !ok4 || !ok5 || date == 0 || (a[3] != "0" && a[3] != "1") {
+		if !ok1 || !ok4 || !ok5 || (a[3] != "0" && a[3] != "1") {
 			return "bad-op"
 		}
 		if int(id) <= w.maxID {
@@ -428,12 +448,12 @@ func (w *world) exec(a []string) string {
 		if !ok {
 			return "bad-op"
 		}
-		ckey := fmt.Sprintf("delete %s %s %d", a[2], a[3], date)
+		ckey := fmt.Sprintf("delete %s %s %s", a[2], a[3], a[4])
 		if w.content[ckey] {
 			return "bad-op"
 		}
 		b := schema.NewDeleteClaim(tgt)
-		b.SetClaimDate(time.Unix(int64(date), 0).UTC())
+		b.SetClaimDate(date)
 		return w.addClaim(int(id), &claimInfo{pn: pn, signer: int(a[3][0] - '0'), isDel: true}, b, rk, ckey)
 
 	case "attr": // attr <mode> <p> <attr> <T> <f>
